@@ -894,6 +894,19 @@ def run_c07_full(prop, mir, log, tier):
                                 "recurrence": [rc, rf], "bounds": [pr["extra_cells"], pr["extra_frames"]]})
         log("  recurrence model vs real interpreter: %d programs, %d mismatches" % (validated, mism))
     exit_code = 2 if mism else 0
+    # a concrete program whose real run exceeds its own static bound (or dies in the machine) is a
+    # violation of the property itself, demonstrated on the real code; it is reported as such
+    if "error" not in nat:
+        over = [pr for pr in nat["programs"] if pr.get("panicked") or pr["max_cells"] - pr["io_cells"] > pr["extra_cells"]
+                or max(0, pr["max_frames"] - pr["io_frames"]) > pr["extra_frames"]]
+        if over:
+            path = os.path.join(VERIF, "replays", "C07", "native_family_exceeds_bound.json")
+            os.makedirs(os.path.dirname(path), exist_ok=True)
+            json.dump({"query": "L0 native program family stays within its static bounds", "programs": over[:5],
+                       "replay_cmd": "vreplay peaks (replay/src/main.rs)"}, open(path, "w"), indent=1)
+            print("VIOLATION property=C07 replay=%s" % path)
+            print("  real Bit Machine run exceeds the program's static bound: %s" % json.dumps(over[0])[:300])
+            exit_code = 1
     known = load_known("C07")
     for (nm, verdict, model) in problems:
         if verdict == "inconclusive" or model is None:
